@@ -391,7 +391,7 @@ func buildC18(r *rig, kind string) (*c18Reg, string) {
 				if !cli.Connected() {
 					return 0
 				}
-				c18take() // nothing ran so far that we care about
+				c18take()      // nothing ran so far that we care about
 				r.Net.CutAll() // the transport is lost: one close of the manager (reconnection is off)
 				settle(0)
 				return 1
@@ -651,9 +651,12 @@ const c18CheckBurst = "c18-once-burst"
 type c18BurstCase struct {
 	Side     string `json:"side"` // server-socket | client-socket
 	Bursts   int    `json:"bursts"`
-	K        int    `json:"k"`        // occurrences per burst
-	Emitters int    `json:"emitters"` // goroutines releasing them
-	Onces    int    `json:"onces"`    // Once registrations per burst (distinct handlers)
+	K        int    `json:"k"`         // occurrences per burst
+	Emitters int    `json:"emitters"`  // goroutines releasing them
+	Onces    int    `json:"onces"`     // Once registrations per burst (distinct handlers)
+	Ons      int    `json:"ons"`       // On registrations present before the first burst (0 is read as 1)
+	MidOnces int    `json:"mid_onces"` // Once registrations made while a burst is being dispatched
+	MidOn    bool   `json:"mid_on"`    // every fourth burst one more On registration is made while it is being dispatched
 }
 
 func evalC18Burst(c c18BurstCase) *Failure {
@@ -681,7 +684,10 @@ func evalC18Burst(c c18BurstCase) *Failure {
 		if c.Side == "client-socket" {
 			reg, emitter = cli, srv
 		}
-		reg.OnEvent("x", c18ev[7])
+		ons := max(c.Ons, 1)
+		for i := 0; i < ons; i++ {
+			reg.OnEvent("x", c18ev[7]) // the same handler registered several times runs that many times per occurrence
+		}
 		c18take()
 		for b := 0; b < c.Bursts && res == nil; b++ {
 			tick()
@@ -689,6 +695,20 @@ func evalC18Burst(c c18BurstCase) *Failure {
 				reg.OnceEvent("x", c18ev[o])
 			}
 			var wg sync.WaitGroup
+			// registrations made while the occurrences are being dispatched
+			midOn := c.MidOn && b%4 == 1
+			if c.MidOnces > 0 || midOn {
+				wg.Add(1)
+				go func() {
+					defer wg.Done()
+					for o := 0; o < c.MidOnces; o++ {
+						reg.OnceEvent("x", c18ev[4+o])
+					}
+					if midOn {
+						reg.OnEvent("x", c18ev[7])
+					}
+				}()
+			}
 			for g := 0; g < c.Emitters; g++ {
 				wg.Add(1)
 				go func(g int) {
@@ -710,8 +730,19 @@ func evalC18Burst(c c18BurstCase) *Failure {
 					res = fail("once-at-most-once", fmt.Sprintf("burst %d: %d simultaneous occurrences ran the Once handler h%d %d times (ran %v)", b, c.K, o, counts[o], ran))
 				}
 			}
-			if counts[7] != c.K && res == nil {
-				res = fail("on-every-time", fmt.Sprintf("burst %d: the On handler ran %d times for %d occurrences", b, counts[7], c.K))
+			for o := 0; o < c.MidOnces; o++ {
+				if counts[4+o] > 1 {
+					res = fail("once-at-most-once", fmt.Sprintf("burst %d: the Once handler h%d, registered while %d occurrences were being dispatched, ran %d times (ran %v)", b, 4+o, c.K, counts[4+o], ran))
+				}
+				reg.OffEvent("x", c18ev[4+o]) // whether it ran or is still pending: removed before the next burst
+			}
+			lo, hi := c.K*ons, c.K*ons
+			if midOn {
+				hi = c.K * (ons + 1)
+				ons++
+			}
+			if (counts[7] < lo || counts[7] > hi) && res == nil {
+				res = fail("on-every-time", fmt.Sprintf("burst %d: the On handler (registered %d times) ran %d times for %d occurrences, want %d..%d", b, ons, counts[7], c.K, lo, hi))
 			}
 		}
 	})
@@ -725,11 +756,13 @@ func TestC18_OnceBurst(t *testing.T) {
 	setT(t)
 	defer startWatchdog(t, 60*1e9)()
 	ev := NewEv(t, "C18", c18CheckBurst, "Once registrations (1..3 distinct handlers) raced by bursts of 2..16 simultaneous occurrences released from 1..4 goroutines, both socket directions, "+
-		"many bursts per rig; oracle: each Once handler exactly once per burst, the On handler once per occurrence; non-trivial = every burst case")
+		"many bursts per rig, with 1..15 On registrations already present and 0..2 Once / one more On registration made while the burst is being dispatched; oracle: each Once handler registered before the "+
+		"burst exactly once per burst, one registered during it at most once, the On handler once per occurrence and registration; non-trivial = every burst case")
 	rapidGuard(t, "C18", c18CheckBurst)
 	runRapid(t, c18CheckBurst, tierN(64, 1600), func(t *rapid.T) {
 		c := c18BurstCase{Side: rapid.SampledFrom([]string{"server-socket", "client-socket"}).Draw(t, "side"), Bursts: tierV(60, 200),
-			K: rapid.IntRange(2, 16).Draw(t, "k"), Emitters: rapid.IntRange(1, 4).Draw(t, "emitters"), Onces: rapid.IntRange(1, 3).Draw(t, "onces")}
+			K: rapid.IntRange(2, 16).Draw(t, "k"), Emitters: rapid.IntRange(1, 4).Draw(t, "emitters"), Onces: rapid.IntRange(1, 3).Draw(t, "onces"),
+			Ons: rapid.IntRange(1, 15).Draw(t, "ons"), MidOnces: rapid.IntRange(0, 2).Draw(t, "midOnces"), MidOn: rapid.Bool().Draw(t, "midOn")}
 		ev.Case(c, true, c.Side)
 		ev.Sample(c.Side, c)
 		if f := evalC18Burst(c); f != nil {
